@@ -23,7 +23,7 @@ CHECKS = {
  "C07": dict(cat="fault_enumeration", tech="explicit-state BFS over write+compaction histories with exhaustive placement of deletion faults / compactor death, plus preemption-bounded schedule exploration of compactor vs writers vs reader",
    text="Every compaction of every explored history is also run with each of its first 5 deletions failing (2 error kinds) and with the compactor dying after i deletions; reads at or above the floor, later writes and out-of-range records are compared with the model after every step; a compactor thread is explored against writers/readers under all schedules up to the bound.",
    ref="4/C07"),
- "C08": dict(cat="model_checking", tech="explicit-state BFS over write/compaction request sequences on the real backend; floor oracle at every revision after every step",
+ "C08": dict(cat="model_checking", tech="explicit-state BFS over write/compaction request sequences on the real backend; floor oracle at every revision after every step, through the compacting node and a second reading node; plus preemption-bounded schedule exploration of a compaction against range reads below its revision and of two overlapping compactions",
    text="All sequences up to the stated depth of writes and compaction requests (zero, every revision, above current; hence every increasing/decreasing/repeated order), de-duplicated on model+storage state; after every step List, limited List and streamed range at every revision must be refused below the floor and served above, and the stored record must equal the floor.",
    ref="4/C08"),
  "C10": dict(cat="exploration", tech="bounded-exhaustive input enumeration of the pure encoding functions (all keys up to length 4 over a 6-7 byte alphabet x 9 revisions; all pairs, all triples)",
@@ -41,7 +41,7 @@ CHECKS = {
  "C06": dict(cat="model_checking", tech="stateless model checking of the real code: preemption-bounded DFS with state cache over list-then-watch reader vs writers vs compactor; reconstruction oracle",
    text="Every schedule up to the bound of a reader (List at R, Watch from R+1), 1-2 writers and optionally a compactor; for every received event revision and the final committed revision, List at that revision must equal the first list with the events applied.",
    ref="4/C06"),
- "C13": dict(cat="model_checking", tech="explicit-state BFS over write histories x exhaustive enumeration of partition border subsets and orders injected under the real scanner; four read paths compared with the unpartitioned snapshot",
+ "C13": dict(cat="model_checking", tech="explicit-state BFS over write histories x exhaustive enumeration of partition border subsets and orders injected under the real scanner; four read paths compared with the unpartitioned snapshot; plus preemption-bounded schedule exploration of the partition workers of one read over two partitions",
    text="In every state of the history BFS every single border and every pair (thorough: also triples, and real region splits of the tikv mock cluster) of borders from stored and well-formed internal keys, reported in every order, is installed; List, Count, whole-interval stream and the concatenation of per-advertised-partition streams at every revision are compared with the model; batch revisions and terminators are checked.",
    ref="4/C13"),
  "C09": dict(cat="fault_enumeration", tech="exhaustive enumeration of unknown-outcome fault placements, variants, continuations, clock scripts and repair-commit fates on the real backend with the real sequencer and retry loop under a virtual clock; plus preemption-bounded DFS over the schedules of the retry loop against a concurrent writer on the same key",
@@ -56,8 +56,8 @@ CHECKS = {
  "C16": dict(cat="model_checking", tech="explicit-state BFS over Kubernetes-shaped transaction histories through the real etcd RPC server against an etcd reference model, plus exhaustive enumeration of a transaction grammar (~21 000 shapes x 3 store states)",
    text="Every history up to the stated depth of the four Kubernetes shapes on 3 prefix-related keys is executed through RPCServer.Txn/Range/Watch and compared field by field with etcd semantics; every shape of the grammar must either be one of the four shapes on one key or be rejected with an error and leave the store byte-identical.",
    ref="4/C16"),
- "C17": dict(cat="model_checking", tech="exhaustive enumeration of histories mixing Event / non-Event / look-alike keys, compactions and virtual-clock advances around the TTL, on engines with and without native TTL; versioned-map model with an 'may be wholly gone after TTL' rule",
-   text="Every history up to the stated depth over 16 operations; after every step every key is compared with the model: non-Event keys never change, an Event may read absent only when its newest change is at least TTL old, and then wholly.",
+ "C17": dict(cat="model_checking; plus preemption-bounded schedule exploration of expiry against a writer of the Event", tech="exhaustive enumeration of histories mixing Event / non-Event / look-alike keys, compactions and virtual-clock advances around the TTL, on engines with and without native TTL; versioned-map model with an 'may be wholly gone after TTL' rule",
+   text="Every history up to the stated depth over 16 operations; after every step every key is compared with the model: non-Event keys never change, an Event may read absent only when its newest change is at least TTL old, and then wholly. Schedules: the compaction that expires an old Event against a client updating it or deleting and re-creating it; afterwards point read, range read, stored records and a guarded write agree.",
    ref="4/C17"),
  "C18": dict(cat="model_checking", tech="exhaustive execution of the request x role x proxy x leader-reachability matrix through the real servers and the real revision syncer (recording backend), plus preemption-bounded schedule exploration of the real syncer / single-flight group",
    text="All 400 cells of the matrix are executed (25 request types of both APIs); a follower must never call a write or watch method of its backend, must adopt the leader's revision before any read and must fail the read when the revision cannot be obtained. Every schedule up to the bound of 2-3 follower reads against an advancing leader revision is explored on the real syncer.",
